@@ -11,7 +11,7 @@ use std::collections::BTreeMap;
 use std::rc::Rc;
 
 /// (name, text, dependencies as pool indices)
-const POOL: [(&str, &str, &[usize]); 31] = [
+const POOL: [(&str, &str, &[usize]); 36] = [
     ("m", "?? the metre\nm !meter\n", &[]),
     ("kilo", "kilo- 1000\n", &[]),
     ("k", "k-- kilo\n", &[1]),
@@ -47,6 +47,13 @@ const POOL: [(&str, &str, &[usize]); 31] = [
     ("dryice", "dryice CO2\n", &[26, 27]),
     // a prefixed plural (kilo + d1 + s) referenced from a name that sorts before all three parts
     ("a_plur", "a_plur 3 kilod1s\n", &[1, 6]),
+    // a name in every other position of a definition: exponent, call argument, property access,
+    // under a unary minus, as a divisor - each from a name that sorts before what it mentions
+    ("z_two", "z_two 2\n", &[]),
+    ("a_pow", "a_pow m^z_two\n", &[0, 31]),
+    ("a_mm", "a_mm molar_mass of carbon\n", &[26]),
+    ("a_neg", "a_neg -z_long\n", &[23]),
+    ("a_frac", "a_frac m / z_two\n", &[0, 31]),
 ];
 
 fn pool_entries(i: usize) -> Vec<DefEntry> {
@@ -193,10 +200,10 @@ impl C12 {
         let thorough = tier == "thorough";
         let mut subsets = closed_subsets(7);
         if !thorough {
-            // every 16th dependency-closed subset in the quick tier, plus - so that no definition of
+            // every 32nd dependency-closed subset in the quick tier, plus - so that no definition of
             // the pool goes untried - the first subset that contains each pool item
             let all = subsets;
-            let mut pick: std::collections::BTreeSet<usize> = (0..all.len()).step_by(16).collect();
+            let mut pick: std::collections::BTreeSet<usize> = (0..all.len()).step_by(32).collect();
             for item in 0..POOL.len() {
                 if let Some(i) = all.iter().position(|s| s.contains(&item)) {
                     pick.insert(i);
@@ -275,7 +282,7 @@ impl Space for C12 {
         Meta {
             id: "C12",
             level: "exploration",
-            rule: "(a) all 5040 permutations of every dependency-closed 7-subset (quick: every 16th) of a 31-definition pool (4-long alias chain, diamond, dependency reachable only through a prefix split / only through a plural, long+short prefixes defined through each other, quantities, a substance, category, docs); (b) the bundled database reversed, sorted by name ascending/descending, in dependency-reversed order, and under every rotation (quick: every 24th); (c) a 6-definition extension set distributed over ./definitions.units and $XDG_CONFIG_HOME/rink/definitions.units in all 2^6 assignments x both internal orders x 4 file endings (as written, no final newline, either file ending inside a `!category` block) through the real `rink --dump`; (d) text level: all 5040 orders of 7 snippets (documented and undocumented base unit, quantities, units, prefix, substance) x all 36 splits into up to 3 files x 3 positions of the substance's `!symbol` directive within its file, each file parsed as a file (parser state such as a pending `??` comment carries between lines), against the snippets parsed one by one. Oracle: byte-identical Debug dump of the whole Registry and identical error multiset versus the reference order. Non-trivial = all; distinct by the order used".into(),
+            rule: "(a) all 5040 permutations of every dependency-closed 7-subset (quick: every 32nd, plus the first subset containing each definition) of a 36-definition pool (names in exponents, property accesses, under unary minus and as divisors, each referenced from a name sorting first; 4-long alias chain, diamond, dependency reachable only through a prefix split / only through a plural, long+short prefixes defined through each other, quantities, a substance, category, docs); (b) the bundled database reversed, sorted by name ascending/descending, in dependency-reversed order, and under every rotation (quick: every 24th); (c) a 6-definition extension set distributed over ./definitions.units and $XDG_CONFIG_HOME/rink/definitions.units in all 2^6 assignments x both internal orders x 4 file endings (as written, no final newline, either file ending inside a `!category` block) through the real `rink --dump`; (d) text level: all 5040 orders of 7 snippets (documented and undocumented base unit, quantities, units, prefix, substance) x all 36 splits into up to 3 files x 3 positions of the substance's `!symbol` directive within its file, each file parsed as a file (parser state such as a pending `??` comment carries between lines), against the snippets parsed one by one. Oracle: byte-identical Debug dump of the whole Registry and identical error multiset versus the reference order. Non-trivial = all; distinct by the order used".into(),
             assumptions: vec![
                 "premise of the statement: uniquely named definitions - entries sharing (namespace, name) in the shipped file are reduced to their last occurrence before permuting (listed in the evidence)".into(),
                 "Debug of Registry shows every field".into(),
